@@ -61,6 +61,12 @@ def cases_apply_bounds(tier):
                 yield "t%d/%s/%s" % (t, lbk, ubk), {"types": [t], "lbk": [lbk], "ubk": [ubk]}
     # a mixed vector (broadcast/layout sanity): all three types side by side, perturbed values 2-d
     yield "mixed-2d", {"types": [NONE, TRUNC, MIRROR], "lbk": ["fin", "-inf", "fin"], "ubk": ["+inf", "fin", "fin"], "rows": 2}
+    if tier == "thorough":
+        # every pair of (type, bound kinds) side by side: the element-wise closure argument, checked on 2-vectors and 3-d perturbations
+        combos = [(t, lbk, ubk) for t in (NONE, TRUNC, MIRROR) for lbk in ("fin", "-inf") for ubk in ("fin", "+inf")]
+        for a in combos:
+            for b in combos:
+                yield "pair/%d%s%s-%d%s%s" % (a + b), {"types": [a[0], b[0]], "lbk": [a[1], b[1]], "ubk": [a[2], b[2]], "rows": 2}
 
 
 def scn_apply_bounds(T, case):
@@ -93,7 +99,7 @@ class _FakeSampler:
 
 
 def cases_perturb(tier):
-    shapes = [(1, 1, 1), (2, 1, 2)] if tier == "quick" else [(1, 1, 1), (2, 1, 2), (1, 2, 3), (2, 2, 2)]
+    shapes = [(1, 1, 1), (2, 1, 2)] if tier == "quick" else [(1, 1, 1), (2, 1, 2), (1, 2, 3), (2, 2, 2), (3, 2, 2), (2, 3, 3)]
     for (R, P, N) in shapes:
         for types in itertools.product((NONE, TRUNC, MIRROR), repeat=min(N, 2)):
             types = list(types) + [MIRROR] * (N - len(types))
@@ -168,7 +174,7 @@ class _FakeGradient:
 
 
 def cases_fix(tier):
-    for N in (1, 2):
+    for N in (1, 2) + ((3,) if tier == "thorough" else ()):
         for ptypes in itertools.product((ABSOLUTE, RELATIVE), repeat=N):
             for tr in (False, True):
                 for bcast in ((False, True) if N > 1 else (False,)):
